@@ -231,8 +231,9 @@ _LOOP_IMG = None
 
 
 def replay_loop(args):
-    """spec -> code (IsoGrowthGen.tla): one complete behaviour of the loop machine driven through the REAL fit_image control flow, with
-    fit_isophote replaced by a stub that builds real samples / Isophote objects carrying the dictated stop codes"""
+    """spec -> code (IsoGrowthGen.tla): one complete behaviour of the loop machine driven through the REAL fit_image / fit_isophote / _non_iterative /
+    _fix_last_isophote, with only the numerical fitter Ellipse._iterative replaced by a stub that builds real samples / Isophote objects carrying the
+    dictated stop codes and, for the geometry flow, a centre that names the call (x0 = 60 + call / 1024, exact in binary)"""
     idx, c = args
     global _LOOP_IMG
     from photutils.isophote import Ellipse, EllipseGeometry
@@ -244,47 +245,58 @@ def replay_loop(args):
     rq = GEN_LOOP[c['cfg']]
     sma0, step = rq['sma0'], rq['step']
     expo = lambda sma: -1000 if sma == 0.0 else int(round(math.log(sma / sma0) / math.log(1.0 + step)))  # noqa
+    gid = lambda geometry: int(round((geometry.x0 - 60.0) * 1024))  # noqa
     script = [tuple(x) for x in c['calls']]
     calls, problems = [], []
-    orig = Ellipse.fit_isophote
+    orig_it, orig_non = Ellipse._iterative, Ellipse._non_iterative
 
-    def stub(self, sma, step=0.1, conver=None, minit=None, maxit=None, fflag=None, maxgerr=None, sclip=3.0, nclip=0, integrmode='bilinear', linear=False,
-             maxrit=None, noniterate=False, going_inwards=False, isophote_list=None):
+    def stub_it(self, sma, step, linear, geometry, sclip, nclip, integrmode, conver, minit, maxit, fflag, maxgerr, going_inwards=False):
         if sma == 0.0:
-            calls.append((-1000, 0, bool(noniterate)))
-            return orig(self, 0.0, isophote_list=isophote_list)
+            calls.append((-1000, 0, False, 0))
+            return orig_it(self, sma, step, linear, geometry, sclip, nclip, integrmode, conver, minit, maxit, fflag, maxgerr, going_inwards)
         n = sum(1 for q in calls if q[0] != -1000)
         if n >= len(script):
             raise _Budget()
         code = script[n][1]
-        geometry = isophote_list[-1].sample.geometry if isophote_list else self._geometry
+        if code == 4:
+            code = 0          # the model expected a non-iterative fit here; reported below
         sample = EllipseSample(self.image, sma, astep=step, linear_growth=linear, geometry=geometry, integrmode=integrmode)
+        sample.geometry.x0 = 60.0 + (n + 1) / 1024.0          # the fit moved the ellipse: geometry named after the call
         sample.update(geometry.fix)
-        iso = Isophote(sample, 0 if code == 4 else 10, code != 3, code)
-        calls.append((expo(sma), code, bool(noniterate or (maxrit and sma > maxrit))))
-        if isophote_list is not None and iso.valid:
-            isophote_list.append(iso)
-        return iso
+        calls.append((expo(sma), code, False, gid(geometry)))
+        return Isophote(sample, 10, code != 3, code)
+
+    def wrap_non(self, sma, step, linear, geometry, sclip, nclip, integrmode):
+        n = sum(1 for q in calls if q[0] != -1000)
+        if n >= len(script):
+            raise _Budget()
+        calls.append((expo(sma), 4, True, gid(geometry)))
+        return orig_non(self, sma, step, linear, geometry, sclip, nclip, integrmode)
     sig = {'cfg': c['cfg'], 'codes_seen': sorted({x[1] for x in script}), 'kind': 'loop_replay', 'law': None, 'mode': 'loop_replay', 'fix': None, 'eps': None, 'pa_is_zero': None}
-    Ellipse.fit_isophote = stub
+    Ellipse._iterative, Ellipse._non_iterative = stub_it, wrap_non
     got = None
     try:
         iso = Ellipse(_LOOP_IMG, EllipseGeometry(60.0, 60.0, sma0, 0.2, 0.6)).fit_image(sma0=sma0, minsma=rq['minsma'], maxsma=rq['maxsma'], step=step, maxrit=rq.get('maxrit'))
-        got = [[expo(i.sma), int(i.stop_code)] for i in iso]
+        got = [[expo(i.sma), int(i.stop_code), 0 if i.sma == 0.0 else gid(i.sample.geometry)] for i in iso]
     except _Budget:
         problems.append('fit_image asks for more fits than the model behaviour has')
     except Exception as e:  # noqa
         problems.append('fit_image raises ' + repr(e))
     finally:
-        Ellipse.fit_isophote = orig
+        Ellipse._iterative, Ellipse._non_iterative = orig_it, orig_non
     fits = [q for q in calls if q[0] != -1000]
     if not problems:
+        want = [list(x) for x in c['final']]
         if [q[0] for q in fits] != [x[0] for x in script]:
             problems.append('requested sma exponents differ from the model behaviour')
-        elif any(q[2] != (q[1] == 4) for q in fits):
+        elif any(q[2] != (x[1] == 4) for q, x in zip(fits, script)):
             problems.append('non-iterative mode requested where the model is iterative (or the reverse)')
-        elif got != [list(x) for x in c['final']]:
+        elif [q[3] for q in fits] != [x[2] for x in script]:
+            problems.append('a fit starts from another geometry than the model says (the last isophote of the list)')
+        elif [x[:2] for x in got] != [x[:2] for x in want]:
             problems.append('returned list differs from the model list')
+        elif [x[2] for x in got if x[0] != -1000] != [x[2] for x in want if x[0] != -1000]:
+            problems.append('a returned isophote carries another geometry than the model says (repair of a failed fit)')
         elif (sum(1 for q in calls if q[0] == -1000) == 1) != (c['MinZero'] and bool(c['final'])):
             problems.append('central isophote requested although minsma > 0 (or not requested for minsma = 0)')
     if problems:
